@@ -61,6 +61,75 @@ pub const OP_PUSH_INC: u8 = 8;
 pub const OP_PUSH_DEC: u8 = 9;
 pub const OP_ITER_MUT_DROP: u8 = 10;
 
+/// Native confirmation of a crash-point counterexample (replay with REAL unwinding):
+/// `VERIF_CRASH_CONT=<k>` makes the observed callback panic at the recorded index, the
+/// panic is caught, and continuation number k is run on the queue. A continuation that
+/// trips std's unsafe-precondition checks (dev profile) aborts the process: that is the
+/// concrete unsafe access the property forbids.
+#[cfg(not(kani))]
+fn native_cont() -> Option<u32> {
+    std::env::var("VERIF_CRASH_CONT").ok().and_then(|s| s.parse().ok())
+}
+
+#[cfg(not(kani))]
+pub const CONTINUATIONS: u32 = 4 + 3 * 16;
+
+#[cfg(not(kani))]
+fn continuation<T: Q>(q: &mut T, k: u32) {
+    match k {
+        0 => {
+            q.pop_hi();
+        }
+        1 => {
+            if T::DOUBLE {
+                q.pop_lo();
+            } else {
+                q.pop_hi();
+                q.pop_hi();
+            }
+        }
+        2 => {
+            q.push(Item::new(15, 0), Pr(255));
+        }
+        3 => {
+            q.push(Item::new(14, 0), Pr(0));
+        }
+        _ => {
+            let key = ((k - 4) % 16) as u8;
+            match (k - 4) / 16 {
+                0 => {
+                    q.remove(&key);
+                }
+                1 => {
+                    q.change_priority(&key, Pr(255));
+                }
+                _ => {
+                    q.change_priority(&key, Pr(0));
+                }
+            }
+        }
+    }
+    // then use the queue up: touch every key both ways, grow it, empty it
+    let mut key = 0u8;
+    while key < 16 {
+        q.change_priority(&key, Pr(255));
+        q.change_priority(&key, Pr(0));
+        key += 1;
+    }
+    q.push(Item::new(13, 0), Pr(200));
+    q.push(Item::new(12, 0), Pr(100));
+    let mut guard = 0;
+    while guard < 40 {
+        if q.pop_hi().is_none() {
+            break;
+        }
+        guard += 1;
+    }
+    q.push(Item::new(1, 1), Pr(1));
+    q.push(Item::new(2, 2), Pr(2));
+    q.pop_hi();
+}
+
 pub fn crash<T: Q, const N: usize>(op: u8, tables: Tables) {
     // a crash can itself follow a crash: start from any CRASHSAFE state
     let (mut q, _gh) = state::<T, N>(Pre::CrashSafe, tables);
@@ -68,6 +137,33 @@ pub fn crash<T: Q, const N: usize>(op: u8, tables: Tables) {
     let p = sym::u8();
     let verdict = sym::bool();
     arm(&q, ALL_CB);
+    #[cfg(not(kani))]
+    if let Some(cont) = native_cont() {
+        unsafe {
+            hook::MODE = hook::MODE_PANIC;
+        }
+        let r = std::panic::catch_unwind(std::panic::AssertUnwindSafe(|| run_op(&mut q, op, k, p, verdict)));
+        hook::stop();
+        println!("crash replay: operation {} (a panic was {}caught); continuation {}", op, if r.is_err() { "" } else { "NOT " }, cont);
+        continuation(&mut q, cont);
+        println!("crash replay: continuation {} returned normally", cont);
+        // dropping a corrupted queue is part of "every later use"
+        drop(q);
+        return;
+    }
+    run_op(&mut q, op, k, p, verdict);
+    let (probed, ok) = unsafe { (hook::PROBED, hook::PROBE_OK) };
+    hook::stop();
+    assert!(
+        !probed || ok,
+        "CRASH: tables are mutually consistent at every user callback (a caught panic there leaves a safe queue)"
+    );
+    assert!(crashsafe(&q), "CRASH: tables are mutually consistent at normal return");
+    cover!(probed, "a callback was reached at the chosen index");
+    cover!(true, "reach: end of harness");
+}
+
+fn run_op<T: Q>(q: &mut T, op: u8, k: u8, p: u8, verdict: bool) {
     match op {
         OP_PUSH => {
             q.push(Item::new(k, 0), Pr(p));
@@ -118,13 +214,4 @@ pub fn crash<T: Q, const N: usize>(op: u8, tables: Tables) {
             drop(it);
         }
     }
-    let (probed, ok) = unsafe { (hook::PROBED, hook::PROBE_OK) };
-    hook::stop();
-    assert!(
-        !probed || ok,
-        "CRASH: tables are mutually consistent at every user callback (a caught panic there leaves a safe queue)"
-    );
-    assert!(crashsafe(&q), "CRASH: tables are mutually consistent at normal return");
-    cover!(probed, "a callback was reached at the chosen index");
-    cover!(true, "reach: end of harness");
 }
